@@ -539,9 +539,13 @@ func pubsubChild(args []string) int {
 			}
 		case "pub":
 			id, via, variant := atoi(f[1]), atoi(f[2]), f[3]
-			var evs []int
+			// the event slice is a prefix of a larger buffer (spare capacity holding junk), as a batching producer's `buf[:n]` would be
+			evs := make([]int, 0, 8)
 			for _, s := range strings.Split(f[4], ",") {
 				evs = append(evs, atoi(s))
+			}
+			for i, tail := 0, evs[len(evs):cap(evs)]; i < len(tail); i++ {
+				tail[i] = -555000 - i
 			}
 			if via != 0 {
 				if rc, ok := p.cready[via]; !ok || !waitFor(rc, 3*time.Millisecond) {
